@@ -1335,6 +1335,789 @@ Qed.
 Lemma vec_bin_BA_VF a c p r : vec_bin false (BA a) (VF c) p = Ok r -> exists c', r = VF c'.
 Proof. destruct p; cbn; intros H; try discriminate; apply okF_inv in H as (c' & _ & ->); eauto. Qed.
 
+(* ================================================================== Part 6: comparisons refine NumPy's *)
+Lemma bool_ext (b1 b2 : bool) : (b1 = true <-> b2 = true) -> b1 = b2.
+Proof. destruct b1, b2; intros [H1 H2]; auto; try (symmetry; now apply H1); try (now apply H2). Qed.
+Lemma qcmp_compat c x x' y y' : x == x' -> y == y' -> qcmp c x y = qcmp c x' y'.
+Proof.
+  intros Hx Hy.
+  assert (E : Qeq_bool x y = Qeq_bool x' y').
+  { apply bool_ext. rewrite !Qeq_bool_iff. now rewrite Hx, Hy. }
+  assert (L1 : Qle_bool x y = Qle_bool x' y').
+  { apply bool_ext. rewrite !Qle_bool_iff. now rewrite Hx, Hy. }
+  assert (L2 : Qle_bool y x = Qle_bool y' x').
+  { apply bool_ext. rewrite !Qle_bool_iff. now rewrite Hx, Hy. }
+  destruct c; unfold qcmp, qeqb, qltb, qleb; congruence.
+Qed.
+Lemma qcmp_00 c : qcmp c 0 0 = match c with CEq | CGe | CLe => true | _ => false end.
+Proof. destruct c; reflexivity. Qed.
+Definition Rcq (c : cell) (q : Q) : Prop := dcell c == q.
+Lemma Rc_Rcq c q : Rc c q -> Rcq c q.
+Proof. intros [_ H]; exact H. Qed.
+Lemma qeqb_zero_present x : wfc x -> negb (present x) = qeqb (dcell x) 0.
+Proof.
+  destruct x as [v|]; cbn; intros H; auto. unfold qeqb. symmetry. apply not_true_is_false.
+  intros E. apply Qeq_bool_iff in E. contradiction.
+Qed.
+(* every branch of every comparison kernel computes dct.get(i, 0.) <op> other.get(i, 0.) *)
+Lemma cmp_cell_same c x y : wfc x -> wfc y ->
+  match c with CEq => eq_same_c x y | CNe => ne_same_c x y | _ => cmp_same_c c x y end = qcmp c (dcell x) (dcell y).
+Proof.
+  intros Hx Hy. destruct c; unfold eq_same_c, ne_same_c, cmp_same_c;
+    destruct x as [v|], y as [w|]; cbn in *; unfold qeqb, qltb, qleb in *; auto;
+    try (symmetry; apply not_true_is_false; intros E; apply Qeq_bool_iff in E; try (apply Hx; rewrite E; reflexivity); try (apply Hy; rewrite <- E; reflexivity); fail);
+    try (symmetry; apply negb_true_iff, not_true_is_false; intros E; apply Qeq_bool_iff in E; try (apply Hx; rewrite E; reflexivity); try (apply Hy; rewrite <- E; reflexivity); fail).
+Qed.
+Theorem cmp_sparse_same_refines c a a' b b' : Rv a a' -> Rv b b' -> length a = length b ->
+  rrel eq (cmp_sparse c a b) (np_cmp c a' b').
+Proof.
+  intros Ha Hb L. unfold np_cmp, np_bcast. rewrite <- (Rv_length _ _ Ha), <- (Rv_length _ _ Hb), L, Nat.eqb_refl.
+  rewrite map2M_pure.
+  assert (G : forall f, (forall x y, wfc x -> wfc y -> f x y = qcmp c (dcell x) (dcell y)) ->
+                        map2 f a b = map2 (qcmp c) a' b').
+  { intros f Hf. clear L. revert b b' Hb. induction Ha as [|x x' a a' [Hxw Hxd] Ha IH]; intros b b' Hb; cbn.
+    - destruct Hb; reflexivity.
+    - destruct Hb as [|y y' b b' [Hyw Hyd] Hb]; cbn; auto. rewrite Hf by auto. f_equal; auto. now apply qcmp_compat. }
+  unfold cmp_sparse, dispatch_sparse. rewrite L, Nat.eqb_refl.
+  destruct c; cbn; f_equal; apply G; intros x y Hx Hy.
+  - exact (cmp_cell_same CEq x y Hx Hy).
+  - exact (cmp_cell_same CNe x y Hx Hy).
+  - exact (cmp_cell_same CGt x y Hx Hy).
+  - exact (cmp_cell_same CLt x y Hx Hy).
+  - exact (cmp_cell_same CGe x y Hx Hy).
+  - exact (cmp_cell_same CLe x y Hx Hy).
+Qed.
+
+(* ================================================================== Part 7: division, every broadcasting branch *)
+(* np_div0 is NumPy's division except that 0/0 gives 0; wherever NumPy returns, np_div0 returns the same *)
+Lemma qdiv0_of_qdiv x y q : qdiv x y = Ok q -> qdiv0 x y = Ok q.
+Proof. unfold qdiv, qdiv0. destruct (qzerob y); intros H; [discriminate|exact H]. Qed.
+Lemma map2M_mono {A B C} (f g : A -> B -> res C) a b v :
+  (forall x y z, f x y = Ok z -> g x y = Ok z) -> map2M f a b = Ok v -> map2M g a b = Ok v.
+Proof.
+  intros H. revert b v. induction a as [|x a IH]; intros [|y b] v E; cbn in *; auto.
+  destruct (f x y) eqn:F; try discriminate. destruct (map2M f a b) eqn:M; try discriminate.
+  rewrite (H _ _ _ F), (IH _ _ M). exact E.
+Qed.
+Lemma mapM_mono {A C} (f g : A -> res C) a v :
+  (forall x z, f x = Ok z -> g x = Ok z) -> mapM f a = Ok v -> mapM g a = Ok v.
+Proof.
+  intros H. revert v. induction a as [|x a IH]; intros v E; cbn in *; auto.
+  destruct (f x) eqn:F; try discriminate. destruct (mapM f a) eqn:M; try discriminate.
+  rewrite (H _ _ F), (IH _ eq_refl). exact E.
+Qed.
+Lemma np_div0_of_np a b v : np_arith Div a b = Ok v -> np_div0 a b = Ok v.
+Proof.
+  unfold np_arith, np_div0, np_bcast. cbn [aop_q].
+  destruct (Nat.eqb (length a) (length b)); [apply map2M_mono; intros; now apply qdiv0_of_qdiv|].
+  destruct (Nat.eqb (length a) 1); [apply mapM_mono; intros; now apply qdiv0_of_qdiv|].
+  destruct (Nat.eqb (length b) 1); [apply mapM_mono; intros; now apply qdiv0_of_qdiv|auto].
+Qed.
+
+Lemma Rc_zero_iff x x' : Rc x x' -> (x = None <-> x' == 0).
+Proof.
+  intros [Hw Hd]. destruct x as [v|]; cbn in *; split; intros H; try discriminate; auto.
+  - exfalso. apply Hw. now rewrite Hd.
+  - now rewrite <- Hd.
+Qed.
+Lemma qdiv0_eval_nz x y : ~ y == 0 -> qdiv0 x y = Ok (x / y).
+Proof. intros H. unfold qdiv0. apply qzerob_false in H. now rewrite H. Qed.
+Lemma qdiv0_eval_z x y : y == 0 -> qdiv0 x y = if qzerob x then Ok 0 else Err EZeroDiv.
+Proof. intros H. unfold qdiv0. apply qzerob_true in H. now rewrite H. Qed.
+Lemma zero_div y : 0 / y == 0.
+Proof. unfold Qdiv. ring. Qed.
+(* per cell: stored / stored, stored / missing (error), missing / anything (0) *)
+Lemma truediv_same_c_rel x x' y y' : Rc x x' -> Rc y y' -> rrel Rc (truediv_same_c x y) (qdiv0 x' y').
+Proof.
+  intros Hx Hy. pose proof (Rc_zero_iff _ _ Hx) as Zx. pose proof (Rc_zero_iff _ _ Hy) as Zy.
+  destruct Hx as [Hxw Hxd], Hy as [Hyw Hyd].
+  destruct x as [v|], y as [w|]; cbn in *.
+  - rewrite (qdiv_eval v w Hyw), qdiv0_eval_nz by (now rewrite <- Hyd). cbn. split; cbn; [now apply qdiv_nz|now rewrite Hxd, Hyd].
+  - rewrite qdiv0_eval_z by (now rewrite <- Hyd).
+    assert (N : ~ x' == 0) by (now rewrite <- Hxd). apply qzerob_false in N. now rewrite N.
+  - rewrite qdiv0_eval_nz by (now rewrite <- Hyd). cbn. split; cbn; auto. rewrite <- Hxd. symmetry. apply zero_div.
+  - rewrite qdiv0_eval_z by (now rewrite <- Hyd).
+    assert (N : x' == 0) by (now rewrite <- Hxd). apply qzerob_true in N. rewrite N. cbn. split; cbn; auto. reflexivity.
+Qed.
+Lemma div_c_rel x x' y y' : Rc x x' -> y == y' -> rrel Rc (div_c x y) (qdiv0 x' y').
+Proof.
+  intros [Hxw Hxd] Hy. destruct x as [v|]; cbn in *.
+  - unfold qdiv, qdiv0. assert (E : qzerob y = qzerob y').
+    { apply bool_ext. rewrite !qzerob_true. now rewrite Hy. }
+    rewrite <- E. destruct (qzerob y) eqn:Z.
+    + assert (N : ~ x' == 0) by (now rewrite <- Hxd). apply qzerob_false in N. now rewrite N.
+    + cbn. apply qzerob_false in Z. split; cbn; [now apply qdiv_nz|now rewrite Hxd, Hy].
+  - unfold qdiv0. assert (N : x' == 0) by (now rewrite <- Hxd).
+    destruct (qzerob y'); [apply qzerob_true in N; rewrite N|]; cbn; split; cbn; auto; try reflexivity.
+    rewrite N. symmetry. apply zero_div.
+Qed.
+(* nkeys counts the stored cells *)
+Lemma nkeys_cons x a : nkeys (x :: a) = ((if present x then 1 else 0) + nkeys a)%nat.
+Proof. unfold nkeys. cbn. destruct (present x); reflexivity. Qed.
+Lemma nkeys_le a : (nkeys a <= length a)%nat.
+Proof. induction a as [|x a IH]; [cbn; lia|]. rewrite nkeys_cons. cbn [length]. destruct (present x); lia. Qed.
+Lemma nkeys_full a : Nat.eqb (nkeys a) (length a) = true <-> Forall (fun x => present x = true) a.
+Proof.
+  rewrite Nat.eqb_eq. induction a as [|x a IH]; [split; [constructor|reflexivity]|].
+  rewrite nkeys_cons. cbn [length]. pose proof (nkeys_le a). split.
+  - intros H0. destruct (present x) eqn:P; [|lia]. constructor; auto. apply IH. lia.
+  - intros H0. inversion H0; subst. rewrite H3. apply IH in H4. lia.
+Qed.
+Lemma nkeys_zero a : Nat.eqb (nkeys a) 0 = true <-> Forall (fun x => x = None) a.
+Proof.
+  rewrite Nat.eqb_eq. induction a as [|x a IH]; [split; [constructor|reflexivity]|].
+  rewrite nkeys_cons. split.
+  - intros H0. destruct x; cbn in H0; [lia|]. constructor; auto. apply IH. lia.
+  - intros H0. inversion H0; subst. cbn. now apply IH.
+Qed.
+(* size == 1 on the left: value / other[i] for every i, all of other must be stored *)
+Lemma truediv_self1_rel v v' b b' : Rc v v' -> Rv b b' -> rrel Rv (truediv_self1 v b) (mapM (qdiv0 v') b').
+Proof.
+  intros Hv Hb. unfold truediv_self1. destruct v as [value|].
+  - destruct (Nat.eqb (nkeys b) (length b)) eqn:F.
+    + apply (mapM_rrel Rc); auto. intros o o' Ho. apply div_c_rel; auto. apply Ho.
+    + (* some cell of other is missing: the first such cell makes NumPy raise too *)
+      assert (N : ~ Forall (fun x => present x = true) b) by (rewrite <- nkeys_full; congruence).
+      destruct Hv as [Hvw Hvd]. cbn in *. clear F. induction Hb as [|o o' b b' Ho Hb IH]; [exfalso; apply N; constructor|].
+      cbn. pose proof (Rc_zero_iff _ _ Ho) as Z. destruct o as [w|].
+      * destruct Ho as [Hw Hd]. cbn in *. rewrite qdiv0_eval_nz by (now rewrite <- Hd).
+        assert (N' : ~ Forall (fun x => present x = true) b) by (intros K; apply N; constructor; auto).
+        specialize (IH N'). destruct (mapM (qdiv0 v') b'); cbn in *; auto.
+      * rewrite qdiv0_eval_z by (now apply Z).
+        assert (K : ~ v' == 0) by (now rewrite <- Hvd). apply qzerob_false in K. now rewrite K.
+  - assert (Z : v' == 0) by (destruct Hv as [_ H]; cbn in H; now rewrite <- H).
+    rewrite empty_cells_map. rewrite (mapM_ext _ (fun y => Ok (if qzerob y then 0 else v' / y))).
+    + rewrite mapM_pure. cbn. apply (map_Rv Rc); auto. intros o o' Ho. split; cbn; auto.
+      destruct (qzerob o'); [reflexivity|]. rewrite Z. symmetry. apply zero_div.
+    + intros y. unfold qdiv0. apply qzerob_true in Z. rewrite Z. now destruct (qzerob y).
+Qed.
+(* size == 1 on the right *)
+Lemma truediv_other1_rel a a' o o' : Rv a a' -> Rc o o' -> rrel Rv (truediv_other1 a o) (mapM (fun x => qdiv0 x o') a').
+Proof.
+  intros Ha Ho. unfold truediv_other1. pose proof (Rc_zero_iff _ _ Ho) as Z. destruct o as [other|].
+  - destruct Ho as [Hw Hd]. cbn in *. apply (mapM_rrel Rc); auto. intros x x' Hx. now apply div_c_rel.
+  - assert (Zo : o' == 0) by (now apply Z).
+    destruct (Nat.eqb (nkeys a) 0) eqn:F.
+    + apply nkeys_zero in F. induction Ha as [|x x' a a' Hx Ha IH]; cbn; [constructor|].
+      inversion F; subst. rewrite qdiv0_eval_z by auto.
+      assert (Zx : x' == 0) by (destruct Hx as [_ H]; cbn in H; now rewrite <- H). apply qzerob_true in Zx. rewrite Zx.
+      specialize (IH H2). destruct (mapM (fun x => qdiv0 x o') a'); cbn in *; try contradiction.
+      constructor; auto. split; cbn; auto. reflexivity.
+    + assert (N : ~ Forall (fun x => x = None) a) by (rewrite <- nkeys_zero; congruence). clear F.
+      induction Ha as [|x x' a a' Hx Ha IH]; [exfalso; apply N; constructor|].
+      cbn. rewrite qdiv0_eval_z by auto. pose proof (Rc_zero_iff _ _ Hx) as Zx. destruct x as [v|].
+      * assert (K : ~ x' == 0) by (intros K; apply Zx in K; discriminate). apply qzerob_false in K. now rewrite K.
+      * assert (K : x' == 0) by (now apply Zx). apply qzerob_true in K. rewrite K.
+        assert (N' : ~ Forall (fun x => x = None) a) by (intros K'; apply N; constructor; auto).
+        specialize (IH N'). destruct (mapM (fun x => qdiv0 x o') a'); cbn in *; auto.
+Qed.
+Theorem div_sparse_refines a a' b b' : Rv a a' -> Rv b b' -> (length a = 1%nat -> b <> []) ->
+  refines (truediv_sparse a b) (np_div0 a' b').
+Proof.
+  intros Ha Hb Hne. unfold refines, truediv_sparse, dispatch_sparse, np_div0, np_bcast.
+  rewrite <- (Rv_length _ _ Ha), <- (Rv_length _ _ Hb).
+  destruct (Nat.eqb (length a) (length b)) eqn:E.
+  - apply (map2M_rrel Rc Rc); auto. intros; now apply truediv_same_c_rel.
+  - unfold len1, len0. destruct (Nat.eqb (length a) 1) eqn:E1.
+    + assert (L0 : Nat.eqb (length b) 0 = false).
+      { apply Nat.eqb_eq in E1. specialize (Hne E1). destruct b; [congruence|reflexivity]. }
+      rewrite L0. cbn [andb negb]. apply truediv_self1_rel; auto. now apply Rv_hd.
+    + cbn [andb]. destruct (Nat.eqb (length b) 1) eqn:E2; [|reflexivity].
+      destruct Hb as [|y y' b b' Hy Hb]; [discriminate|]. destruct Hb; [|discriminate]. cbn.
+      now apply truediv_other1_rel.
+Qed.
+Theorem div_scalar_refines a a' k k' : Rv a a' -> k == k' -> refines (truediv_scalar a k) (np_div0 a' [k']).
+Proof.
+  intros Ha Hk. unfold refines, truediv_scalar, np_div0, np_bcast. cbn [length hd].
+  assert (G : rrel Rv (mapM (fun c => div_c c k) a) (mapM (fun x => qdiv0 x k') a')).
+  { apply (mapM_rrel Rc); auto. intros; now apply div_c_rel. }
+  destruct (Nat.eqb (length a') 1) eqn:E1; [|exact G].
+  destruct Ha as [|x x' a a' Hx Ha]; [discriminate|]. destruct Ha; [|discriminate]. cbn.
+  pose proof (div_c_rel x x' k k' Hx Hk) as R. destruct (div_c x k), (qdiv0 x' k'); cbn in *; try contradiction; auto.
+  repeat constructor; apply R.
+Qed.
+Theorem div_array_refines a a' b b' : Rv a a' -> Forall2 Qeq b b' -> b <> [] -> length b <> 1%nat ->
+  refines (truediv_array a b) (np_div0 a' b').
+Proof.
+  intros Ha Hb Hne Hn1. unfold refines, truediv_array, dispatch_array, np_div0, np_bcast.
+  assert (Lb : length b = length b') by (clear -Hb; induction Hb; cbn; auto).
+  rewrite <- (Rv_length _ _ Ha), <- Lb.
+  destruct (Nat.eqb (length a) (length b)) eqn:E.
+  - apply (map2M_rrel Rc Qeq); auto. intros; now apply div_c_rel.
+  - assert (L0 : len0 b = false) by (destruct b; [congruence|reflexivity]).
+    unfold len1, len0 in *. rewrite L0. destruct (Nat.eqb (length a) 1) eqn:E1; cbn [andb negb].
+    + pose proof (Rv_hd _ _ Ha) as Hv. unfold truediv_arr_self1. destruct (hd None a) as [value|] eqn:Hh.
+      * apply (mapM_rrel Qeq); auto. intros y y' Hy. now apply div_c_rel.
+      * assert (Z : hd 0 a' == 0) by (destruct Hv as [_ H]; cbn in H; now rewrite <- H).
+        rewrite empty_cells_mapQ. rewrite (mapM_ext _ (fun y => Ok (if qzerob y then 0 else hd 0 a' / y))).
+        -- rewrite mapM_pure. cbn. apply (map_Rv Qeq); auto. intros o o' Ho. split; cbn; auto.
+           destruct (qzerob o'); [reflexivity|]. rewrite Z. symmetry. apply zero_div.
+        -- intros y. unfold qdiv0. apply qzerob_true in Z. rewrite Z. now destruct (qzerob y).
+    + apply Nat.eqb_neq in Hn1. rewrite Hn1. reflexivity.
+Qed.
+
+(* ================================================================== Part 8: comparisons with scalar, array and broadcast operands *)
+Lemma qeqb_iff a b : qeqb a b = true <-> a == b.
+Proof. apply Qeq_bool_iff. Qed.
+Lemma qeqb_niff a b : qeqb a b = false <-> ~ a == b.
+Proof. split; intros H. - intros E. apply qeqb_iff in E. congruence. - apply not_true_is_false. now rewrite qeqb_iff. Qed.
+Lemma qleb_iff a b : qleb a b = true <-> a <= b.
+Proof. apply Qle_bool_iff. Qed.
+Lemma qleb_niff a b : qleb a b = false <-> b < a.
+Proof.
+  split; intros H.
+  - apply Qnot_le_lt. intros E. apply qleb_iff in E. congruence.
+  - apply not_true_is_false. rewrite qleb_iff. now apply Qlt_not_le.
+Qed.
+Lemma qltb_iff a b : qltb a b = true <-> a < b.
+Proof. unfold qltb. rewrite negb_true_iff. apply qleb_niff. Qed.
+Lemma qltb_niff a b : qltb a b = false <-> b <= a.
+Proof. unfold qltb. rewrite negb_false_iff. apply qleb_iff. Qed.
+Lemma Qneq_lt a b : ~ a == b -> a < b \/ b < a.
+Proof. intros H. destruct (Q_dec a b) as [[L|L]|E]; auto. contradiction. Qed.
+(* decide every comparison occurring in the goal, turn the outcomes into order facts, finish with lra *)
+Ltac qbool :=
+  unfold qcmp, truthy in *;
+  repeat match goal with
+         | |- context [qeqb ?a ?b] => let E := fresh "E" in destruct (qeqb a b) eqn:E
+         | |- context [qleb ?a ?b] => let E := fresh "E" in destruct (qleb a b) eqn:E
+         | |- context [qltb ?a ?b] => let E := fresh "E" in destruct (qltb a b) eqn:E
+         | |- context [qzerob ?a] => let E := fresh "E" in destruct (qzerob a) eqn:E
+         end;
+  repeat match goal with
+         | E : qeqb _ _ = true |- _ => apply qeqb_iff in E
+         | E : qeqb _ _ = false |- _ => apply qeqb_niff in E
+         | E : qleb _ _ = true |- _ => apply qleb_iff in E
+         | E : qleb _ _ = false |- _ => apply qleb_niff in E
+         | E : qltb _ _ = true |- _ => apply qltb_iff in E
+         | E : qltb _ _ = false |- _ => apply qltb_niff in E
+         | E : qzerob _ = true |- _ => apply qzerob_true in E
+         | E : qzerob _ = false |- _ => apply qzerob_false in E
+         end;
+  cbn; try reflexivity; exfalso;
+  repeat match goal with
+         | H : ~ _ == _ |- _ => apply Qneq_lt in H; destruct H
+         end; lra.
+Ltac rcs :=
+  repeat match goal with
+         | H : Rc (Some _) _ |- _ => let A := fresh "Hw" in let B := fresh "Hd" in destruct H as [A B]; cbn in A, B
+         | H : Rc None _ |- _ => let B := fresh "Hd" in destruct H as [_ B]; cbn in B
+         end.
+
+(* each per-cell function of each comparison kernel is  dct.get(i, 0.) <op> other.get(i, 0.)  *)
+Lemma cmp_same_cell c x x' y y' : Rc x x' -> Rc y y' ->
+  match c with CEq => eq_same_c x y | CNe => ne_same_c x y | _ => cmp_same_c c x y end = qcmp c x' y'.
+Proof.
+  intros Hx Hy. rewrite cmp_cell_same by (apply Hx || apply Hy). apply qcmp_compat; [apply Hx|apply Hy].
+Qed.
+Definition cmp_self1_cell (c : cmp) (v y : cell) : bool :=
+  match c with
+  | CEq => match v with Some value => match y with Some w => qeqb w value | None => false end | None => negb (present y) end
+  | CNe => match v with Some value => match y with Some w => negb (qeqb w value) | None => true end | None => present y end
+  | _ => if qcmp c (dcell v) 0 then match y with None => true | Some w => qcmp c (dcell v) w end
+         else match y with None => false | Some w => qcmp c (dcell v) w end
+  end.
+Definition cmp_other1_cell (c : cmp) (o x : cell) : bool :=
+  match c with
+  | CEq => match o with Some other => match x with Some v => qeqb v other | None => false end | None => negb (present x) end
+  | CNe => match o with Some other => match x with Some v => negb (qeqb v other) | None => true end | None => present x end
+  | _ => if qcmp c 0 (dcell o) then match x with None => true | Some v => qcmp c v (dcell o) end
+         else match x with None => false | Some v => qcmp c v (dcell o) end
+  end.
+Lemma cmp_self1_cell_rel c v v' y y' : Rc v v' -> Rc y y' -> cmp_self1_cell c v y = qcmp c v' y'.
+Proof. intros Hv Hy. destruct c, v as [value|], y as [w|]; rcs; cbn; qbool. Qed.
+Lemma cmp_other1_cell_rel c o o' x x' : Rc o o' -> Rc x x' -> cmp_other1_cell c o x = qcmp c x' o'.
+Proof. intros Ho Hx. destruct c, o as [other|], x as [v|]; rcs; cbn; qbool. Qed.
+Lemma cmp_sparse_self1_eq c v b : 
+  match c with CEq => eq_self1 v b | CNe => ne_self1 v b | _ => cmp_self1 c (dcell v) b end = map (cmp_self1_cell c v) b.
+Proof.
+  destruct c; unfold eq_self1, ne_self1, cmp_self1, cmp_self1_cell; try (destruct v; reflexivity);
+    destruct (qcmp _ (dcell v) 0); apply map_ext; intros [w|]; reflexivity.
+Qed.
+Lemma cmp_sparse_other1_eq c o a :
+  match c with CEq => eq_other1 a o | CNe => ne_other1 a o | _ => cmp_other1 c a (dcell o) end = map (cmp_other1_cell c o) a.
+Proof.
+  destruct c; unfold eq_other1, ne_other1, cmp_other1, cmp_other1_cell; try (destruct o; reflexivity);
+    destruct (qcmp _ 0 (dcell o)); apply map_ext; intros [w|]; reflexivity.
+Qed.
+Lemma map_bool_rel {A A'} (R : A -> A' -> Prop) (f : A -> bool) (g : A' -> bool) a a' :
+  (forall x x', R x x' -> f x = g x') -> Forall2 R a a' -> map f a = map g a'.
+Proof. intros H Ha. induction Ha; cbn; auto. f_equal; auto. Qed.
+Lemma map2_bool_rel {A A' B B'} (R : A -> A' -> Prop) (S : B -> B' -> Prop) (f : A -> B -> bool) (g : A' -> B' -> bool) a a' b b' :
+  (forall x x' y y', R x x' -> S y y' -> f x y = g x' y') -> Forall2 R a a' -> Forall2 S b b' -> map2 f a b = map2 g a' b'.
+Proof.
+  intros H Ha. revert b b'. induction Ha; intros b b' Hb; cbn; [destruct Hb; reflexivity|].
+  destruct Hb; cbn; auto. f_equal; auto.
+Qed.
+Theorem cmp_sparse_refines c a a' b b' : Rv a a' -> Rv b b' -> (length a = 1%nat -> b <> []) ->
+  rrel eq (cmp_sparse c a b) (np_cmp c a' b').
+Proof.
+  intros Ha Hb Hne.
+  destruct (Nat.eqb (length a) (length b)) eqn:E; [apply cmp_sparse_same_refines; auto; now apply Nat.eqb_eq|].
+  unfold np_cmp, np_bcast. rewrite <- (Rv_length _ _ Ha), <- (Rv_length _ _ Hb), E.
+  assert (S1 : len1 a && negb (len0 b) = true ->
+               cmp_sparse c a b = Ok (map (cmp_self1_cell c (hd None a)) b)).
+  { intros L. rewrite <- cmp_sparse_self1_eq. unfold cmp_sparse, dispatch_sparse. rewrite E, L. now destruct c. }
+  assert (S2 : len1 a && negb (len0 b) = false -> len1 b = true ->
+               cmp_sparse c a b = Ok (map (cmp_other1_cell c (hd None b)) a)).
+  { intros L L2. rewrite <- cmp_sparse_other1_eq. unfold cmp_sparse, dispatch_sparse. rewrite E, L, L2.
+    destruct b as [|y [|y2 b]]; try discriminate. now destruct c. }
+  assert (S3 : len1 a && negb (len0 b) = false -> len1 b = false -> cmp_sparse c a b = Err EValue).
+  { intros L L2. unfold cmp_sparse, dispatch_sparse. rewrite E, L, L2. now destruct c. }
+  unfold len1, len0 in *. destruct (Nat.eqb (length a) 1) eqn:E1.
+  - assert (L0 : Nat.eqb (length b) 0 = false).
+    { apply Nat.eqb_eq in E1. specialize (Hne E1). destruct b; [congruence|reflexivity]. }
+    rewrite S1 by (now rewrite L0). rewrite mapM_pure. cbn. f_equal.
+    apply (map_bool_rel Rc); auto. intros. apply cmp_self1_cell_rel; auto. now apply Rv_hd.
+  - destruct (Nat.eqb (length b) 1) eqn:E2.
+    + rewrite S2 by auto. rewrite mapM_pure. cbn. f_equal.
+      apply (map_bool_rel Rc); auto. intros. apply cmp_other1_cell_rel; auto. now apply Rv_hd.
+    + now rewrite S3.
+Qed.
+(* scalar operand *)
+Lemma cmp_scalar_eq c a k : cmp_scalar c a k = Ok (map (cmp_other1_cell c (nz k)) a).
+Proof.
+  unfold cmp_scalar. f_equal.
+  assert (G : forall c', cmp_other1 c' a k = map (fun x => if qcmp c' 0 (dcell (nz k))
+                 then match x with None => true | Some v => qcmp c' v (dcell (nz k)) end
+                 else match x with None => false | Some v => qcmp c' v (dcell (nz k)) end) a).
+  { intros c'. unfold cmp_other1, nz. destruct (qzerob k) eqn:Z; cbn [dcell].
+    - apply qzerob_true in Z. rewrite (qcmp_compat c' 0 0 k 0) by (auto; reflexivity).
+      destruct (qcmp c' 0 0); apply map_ext; intros [w|]; auto; apply qcmp_compat; auto; reflexivity.
+    - destruct (qcmp c' 0 k); apply map_ext; intros [w|]; reflexivity. }
+  destruct c; try (rewrite G; reflexivity); unfold cmp_other1_cell, nz; destruct (qzerob k); reflexivity.
+Qed.
+Theorem cmp_scalar_refines c a a' k k' : Rv a a' -> k == k' -> rrel eq (cmp_scalar c a k) (np_cmp c a' [k']).
+Proof.
+  intros Ha Hk. rewrite cmp_scalar_eq. unfold np_cmp, np_bcast. cbn [length hd].
+  assert (R : Rc (nz k) k') by (split; [apply wfc_nz | now rewrite dcell_nz]).
+  assert (G : map (cmp_other1_cell c (nz k)) a = map (fun x => qcmp c x k') a').
+  { apply (map_bool_rel Rc); auto. intros. now apply cmp_other1_cell_rel. }
+  destruct (Nat.eqb (length a') 1) eqn:E1.
+  - destruct Ha as [|x x' a a' Hx Ha]; [discriminate|]. destruct Ha; [|discriminate]. cbn in *. now inversion G.
+  - rewrite mapM_pure. cbn. now f_equal.
+Qed.
+(* list / 1-d ndarray operand *)
+Lemma cmp_arr_same_rel c x x' j j' : Rc x x' -> j == j' -> cmp_arr_same_c c x j = qcmp c x' j'.
+Proof. intros Hx Hj. destruct c, x as [v|]; rcs; cbn; qbool. Qed.
+Lemma qeqb_sym a b : qeqb a b = qeqb b a.
+Proof. apply bool_ext. rewrite !qeqb_iff. split; intros H; now symmetry. Qed.
+Lemma cmp_arr_self1_eq c v b : cmp_arr_self1 c v b = map (fun j => cmp_arr_same_c c v j) b.
+Proof.
+  destruct c, v as [value|]; cbn; try reflexivity; apply map_ext; intros j; try reflexivity;
+    try (apply qeqb_sym); try (f_equal; apply qeqb_sym).
+Qed.
+Theorem cmp_array_refines c a a' b b' : Rv a a' -> Forall2 Qeq b b' -> b <> [] -> length b <> 1%nat ->
+  rrel eq (cmp_array c a b) (np_cmp c a' b').
+Proof.
+  intros Ha Hb Hne Hn1.
+  assert (Lb : length b = length b') by (clear -Hb; induction Hb; cbn; auto).
+  unfold np_cmp, np_bcast. rewrite <- (Rv_length _ _ Ha), <- Lb.
+  assert (L0 : len0 b = false) by (destruct b; [congruence|reflexivity]).
+  assert (L1 : Nat.eqb (length b) 1 = false) by (now apply Nat.eqb_neq).
+  assert (G : cmp_array c a b =
+              if Nat.eqb (length a) (length b) then Ok (map2 (cmp_arr_same_c c) a b)
+              else if len1 a then Ok (map (fun j => cmp_arr_same_c c (hd None a) j) b) else Err EValue).
+  { unfold cmp_array, dispatch_array. rewrite <- cmp_arr_self1_eq, L0.
+    destruct c; destruct (Nat.eqb (length a) (length b)); try reflexivity; destruct (len1 a); cbn; try reflexivity;
+      destruct b as [|y [|y2 b]]; try reflexivity; discriminate. }
+  rewrite G. unfold len1. destruct (Nat.eqb (length a) (length b)).
+  - rewrite map2M_pure. cbn. apply (map2_bool_rel Rc Qeq); auto. intros; now apply cmp_arr_same_rel.
+  - destruct (Nat.eqb (length a) 1).
+    + rewrite mapM_pure. cbn. apply (map_bool_rel Qeq); auto. intros. apply cmp_arr_same_rel; auto. now apply Rv_hd.
+    + now rewrite L1.
+Qed.
+
+(* ================================================================== Part 9: vector __getitem__ / __setitem__ refine NumPy indexing *)
+Lemma Rv_nth c v k : Rv c v -> getc c k == nth k v 0.
+Proof.
+  intros H. unfold getc. revert k. induction H as [|x x' c v [_ Hx] H IH]; intros [|k]; cbn; try reflexivity; auto.
+Qed.
+Lemma np_get1_nth {A} (v : list A) k d : (k < length v)%nat -> np_get1 v k = Ok (nth k v d).
+Proof.
+  unfold np_get1. revert k. induction v as [|x v IH]; intros [|k] H; cbn in *; try lia; auto. apply IH. lia.
+Qed.
+(* v[k] *)
+Theorem get_int_refines c v k : Rv c v -> (k < length c)%nat ->
+  exists q, np_get1 v k = Ok q /\ getc c k == q.
+Proof.
+  intros H Hk. exists (nth k v 0). split; [apply np_get1_nth; now rewrite <- (Rv_length _ _ H) | now apply Rv_nth].
+Qed.
+(* v[[i, j, ...]], v[mask], v[a:b:c] *)
+Theorem get_idx_refines c v idx : Rv c v -> Forall (fun i => (i < length c)%nat) idx ->
+  exists r, np_take v idx = Ok r /\ Forall2 Qeq (map (getc c) idx) r.
+Proof.
+  intros H Hi. unfold np_take. induction Hi as [|i idx Hi Hidx IH]; cbn; [eexists; split; eauto; constructor|].
+  destruct IH as (r & -> & Hr). rewrite (np_get1_nth v i 0) by (now rewrite <- (Rv_length _ _ H)).
+  eexists; split; [reflexivity|]. constructor; auto. now apply Rv_nth.
+Qed.
+(* the index lists of the two sides coincide for well-formed indices *)
+Definition valid_index (n : nat) (ix : index) : Prop :=
+  match ix with
+  | IInt k | ITup k => (k < n)%nat
+  | IList l => Forall (fun i => (i < n)%nat) l
+  | IMask m => length m = n
+  | ISlice a b c => (a <= n /\ b <= n /\ 1 <= c)%nat
+  | IOpen => True
+  end.
+Lemma mask_idx_from_bound m k : Forall (fun i => (i < k + length m)%nat) (mask_idx_from k m).
+Proof.
+  revert k. induction m as [|b m IH]; intros k; cbn; [constructor|].
+  specialize (IH (S k)). assert (E : (S k + length m = k + S (length m))%nat) by lia. rewrite E in IH.
+  destruct b; [constructor; [lia|]|]; exact IH.
+Qed.
+Lemma range_from_bound count : forall start step bound, (start + (count - 1) * step < bound)%nat ->
+  Forall (fun i => (i < bound)%nat) (range_from start step count).
+Proof.
+  induction count as [|count IH]; intros start step bound H; cbn [range_from]; constructor.
+  - rewrite Nat.sub_succ, Nat.sub_0_r in H. nia.
+  - rewrite Nat.sub_succ, Nat.sub_0_r in H. destruct count as [|k]; [constructor|].
+    apply IH. rewrite Nat.sub_succ, Nat.sub_0_r. nia.
+Qed.
+Lemma slice_range_bound a b c n : (b <= n)%nat -> (1 <= c)%nat -> Forall (fun i => (i < n)%nat) (slice_range a b c).
+Proof.
+  intros Hb Hc. unfold slice_range. destruct (Nat.leb b a) eqn:E; [constructor|].
+  apply Nat.leb_gt in E. remember ((b - a + c - 1) / c)%nat as cnt eqn:K.
+  destruct cnt as [|k]; [constructor|].
+  assert (M : (S k * c <= b - a + c - 1)%nat) by (rewrite K, Nat.mul_comm; apply Nat.mul_div_le; lia).
+  apply range_from_bound. rewrite Nat.sub_succ, Nat.sub_0_r. nia.
+Qed.
+Theorem index_list_np n ix : valid_index n ix ->
+  np_index_list n ix = Ok (index_list n ix) /\ Forall (fun i => (i < n)%nat) (index_list n ix).
+Proof.
+  intros H. destruct ix as [k|k|l|m|a b c|]; cbn in *.
+  - split; auto.
+  - split; auto.
+  - split; auto.
+  - subst n. rewrite Nat.eqb_refl. split; auto. apply (mask_idx_from_bound m 0).
+  - destruct H as (Ha & Hb & Hc). rewrite !Nat.min_l by lia. split; auto. now apply slice_range_bound.
+  - split; auto. clear. apply Forall_forall. intros i Hi. apply in_seq in Hi. lia.
+Qed.
+
+Lemma Rv_upd c v k x x' : Rv c v -> Rc x x' -> Rv (upd c k x) (upd v k x').
+Proof. intros H Hx. revert k. unfold Rv in *. induction H; intros [|k]; cbn; try constructor; auto. Qed.
+Lemma Rc_nz q q' : q == q' -> Rc (nz q) q'.
+Proof. intros H. split; [apply wfc_nz | now rewrite dcell_nz]. Qed.
+(* v[k] = q : the cell k becomes q, every other cell keeps its content *)
+Theorem set_int_refines c v k q q' : Rv c v -> q == q' -> (k < length c)%nat ->
+  exists r, set1 c k q = Ok r /\ Rv r (upd v k q') /\ length r = length c /\
+            forall j, j <> k -> nth_error r j = nth_error c j.
+Proof.
+  intros H Hq Hk. unfold set1, inb. apply Nat.ltb_lt in Hk. rewrite Hk. eexists; split; [reflexivity|].
+  repeat split.
+  - apply Rv_upd; auto. now apply Rc_nz.
+  - apply upd_length.
+  - intros j Hj. apply nth_error_upd_other. congruence.
+Qed.
+(* v[idx] = values (same number of values as indices): refines NumPy's a[idx] = values; only indexed cells change *)
+Theorem set_zip_refines idx : forall c v vals vals', Rv c v -> Forall2 Qeq vals vals' ->
+  Forall (fun i => (i < length c)%nat) idx ->
+  exists r r', set_zip c idx vals = Ok r /\ np_put v idx vals' = Ok r' /\ Rv r r' /\ length r = length c /\
+               forall j, ~ In j idx -> nth_error r j = nth_error c j.
+Proof.
+  induction idx as [|i idx IH]; intros c v vals vals' H Hv Hi.
+  - exists c, v. cbn. repeat split; auto.
+  - inversion Hi as [|? ? Hi0 Hi1]; subst. destruct Hv as [|q q' vals vals' Hq Hv].
+    + exists c, v. cbn. repeat split; auto.
+    + destruct (set_int_refines c v i q q' H Hq Hi0) as (r0 & E0 & R0 & L0 & F0).
+      cbn [set_zip np_put]. rewrite E0. cbn [bind].
+      assert (Lt : Nat.ltb i (length v) = true) by (apply Nat.ltb_lt; now rewrite <- (Rv_length _ _ H)).
+      rewrite Lt.
+      destruct (IH r0 (upd v i q') vals vals' R0 Hv) as (r & r' & E & P & R & L & F).
+      { rewrite L0. exact Hi1. }
+      exists r, r'. repeat split; auto; try congruence.
+      intros j Hj. rewrite F by (intros K; apply Hj; now right). apply F0. intros ->. apply Hj. now left.
+Qed.
+(* v[idx] = scalar *)
+Lemma set_all_zip c idx q : set_all c idx q = set_zip c idx (repeat q (length idx)).
+Proof. revert c. induction idx as [|i idx IH]; intros c; cbn; auto. destruct (set1 c i q); cbn; auto. Qed.
+Theorem set_all_refines idx c v q q' : Rv c v -> q == q' -> Forall (fun i => (i < length c)%nat) idx ->
+  exists r r', set_all c idx q = Ok r /\ np_put v idx (repeat q' (length idx)) = Ok r' /\ Rv r r' /\ length r = length c /\
+               forall j, ~ In j idx -> nth_error r j = nth_error c j.
+Proof.
+  intros H Hq Hi. rewrite set_all_zip. apply set_zip_refines; auto.
+  clear -Hq. induction (length idx); cbn; constructor; auto.
+Qed.
+(* NumPy's a[idx] = values is np_put when shapes agree *)
+Lemma np_setitems_put {A} (a : list A) idx vals : Forall (fun i => (i < length a)%nat) idx -> length vals = length idx ->
+  np_setitems a idx vals = np_put a idx vals.
+Proof.
+  intros Hi L. unfold np_setitems.
+  assert (F : forallb (fun i => Nat.ltb i (length a)) idx = true).
+  { apply forallb_forall. intros i Hin. apply Nat.ltb_lt. eapply Forall_forall in Hi; eauto. }
+  rewrite F, L, Nat.eqb_refl. reflexivity.
+Qed.
+(* v[:] = scalar / same-size sparse vector *)
+Theorem set_open_scalar_refines c v q q' : Rv c v -> q == q' ->
+  exists r, set_open c (SVScal q) = Ok r /\ Rv r (map (fun _ => q') v).
+Proof.
+  intros H Hq. cbn. eexists; split; [reflexivity|]. destruct (qzerob q) eqn:Z.
+  - rewrite empty_cells_map. apply (map_Rv Rc); auto. intros. split; cbn; auto. apply qzerob_true in Z. now rewrite <- Hq, Z.
+  - apply (map_Rv Rc); auto. intros. split; cbn; auto. now apply qzerob_false.
+Qed.
+Theorem set_open_obj_refines c d : length d = length c -> set_open c (SVObj d) = Ok d.
+Proof.
+  intros L. cbn. rewrite L, Nat.leb_refl, Nat.sub_diag. cbn. now rewrite app_nil_r.
+Qed.
+
+(* ================================================================== Part 10: reductions *)
+Lemma present_truthy x x' : Rc x x' -> present x = truthy x'.
+Proof.
+  intros H. pose proof (Rc_zero_iff _ _ H) as Z. unfold truthy. destruct x as [v|]; cbn.
+  - symmetry. apply negb_true_iff. apply not_true_is_false. intros E. apply qzerob_true in E. apply Z in E. discriminate.
+  - symmetry. apply negb_false_iff. apply qzerob_true. now apply Z.
+Qed.
+Theorem any_refines c v : Rv c v -> sv_any c = np_any v.
+Proof.
+  intros H. unfold sv_any, np_any. induction H as [|x x' c v Hx H IH]; [reflexivity|].
+  rewrite nkeys_cons. cbn [existsb]. rewrite <- (present_truthy _ _ Hx), <- IH.
+  destruct (present x); cbn; auto.
+Qed.
+Theorem all_refines c v : Rv c v -> sv_all c = np_all v.
+Proof.
+  intros H. unfold sv_all, np_all. induction H as [|x x' c v Hx H IH]; [reflexivity|].
+  rewrite nkeys_cons. cbn [forallb length]. rewrite <- (present_truthy _ _ Hx), <- IH.
+  pose proof (nkeys_le c). destruct (present x); cbn [andb].
+  - reflexivity.
+  - apply Nat.eqb_neq. lia.
+Qed.
+Lemma qsum_compat a b : Forall2 Qeq a b -> qsum a == qsum b.
+Proof. intros H. induction H; cbn; [reflexivity|]. now rewrite H, IHForall2. Qed.
+Lemma Rv_Qeq c v : Rv c v -> Forall2 Qeq (dense c) v.
+Proof. intros H. now apply Rv_spec in H. Qed.
+Theorem sum_refines c v : Rv c v -> sv_sum c == np_sum v.
+Proof. intros H. unfold sv_sum, qsumc, np_sum. apply qsum_compat. now apply Rv_Qeq. Qed.
+Lemma qsum_zero l : Forall (fun x => x == 0) l -> qsum l == 0.
+Proof. intros H. induction H; cbn; [reflexivity|]. rewrite H, IHForall. lra. Qed.
+Theorem mean_refines c v : Rv c v -> c <> [] -> exists q, np_mean v = Ok q /\ sv_mean c == q.
+Proof.
+  intros H Hne. unfold np_mean, sv_mean, len0. rewrite <- (Rv_length _ _ H).
+  destruct c as [|x c]; [congruence|]. cbn [length Nat.eqb]. eexists; split; [reflexivity|].
+  destruct (Nat.eqb (nkeys (x :: c)) 0) eqn:Z.
+  - apply nkeys_zero in Z. assert (S0 : qsum v == 0).
+    { rewrite <- (qsum_compat _ _ (Rv_Qeq _ _ H)). apply qsum_zero. clear -Z. induction Z; cbn; constructor; auto. subst. reflexivity. }
+    rewrite S0. symmetry. apply zero_div.
+  - unfold qsumc. now rewrite (qsum_compat _ _ (Rv_Qeq _ _ H)).
+Qed.
+
+(* max / min: characterised as "an element that bounds all elements" *)
+Definition isMax (m : Q) (l : list Q) : Prop := (exists x, In x l /\ x == m) /\ forall y, In y l -> y <= m.
+Definition isMin (m : Q) (l : list Q) : Prop := (exists x, In x l /\ x == m) /\ forall y, In y l -> m <= y.
+Lemma qmaxl_spec l : forall d, isMax (qmaxl d l) (d :: l).
+Proof.
+  unfold qmaxl. induction l as [|x l IH]; intros d; cbn.
+  - split; [exists d; split; [now left|reflexivity]|]. intros y [<-|[]]. apply Qle_refl.
+  - destruct (IH (Qmax d x)) as [(z & Hz & Ez) Hb]. split.
+    + destruct Hz as [<-|Hz].
+      * destruct (Q.max_spec d x) as [[_ E]|[_ E]]; [exists x|exists d]; (split; [cbn; auto|]); now rewrite <- Ez, E.
+      * exists z. split; auto. right; right; exact Hz.
+    + intros y [<-|[<-|Hy]].
+      * eapply Qle_trans; [apply Q.le_max_l|]. apply Hb. now left.
+      * eapply Qle_trans; [apply Q.le_max_r|]. apply Hb. now left.
+      * apply Hb. now right.
+Qed.
+Lemma qminl_spec l : forall d, isMin (qminl d l) (d :: l).
+Proof.
+  unfold qminl. induction l as [|x l IH]; intros d; cbn.
+  - split; [exists d; split; [now left|reflexivity]|]. intros y [<-|[]]. apply Qle_refl.
+  - destruct (IH (Qmin d x)) as [(z & Hz & Ez) Hb]. split.
+    + destruct Hz as [<-|Hz].
+      * destruct (Q.min_spec d x) as [[_ E]|[_ E]]; [exists d|exists x]; (split; [cbn; auto|]); now rewrite <- Ez, E.
+      * exists z. split; auto. right; right; exact Hz.
+    + intros y [<-|[<-|Hy]].
+      * eapply Qle_trans; [|apply Q.le_min_l]. apply Hb. now left.
+      * eapply Qle_trans; [|apply Q.le_min_r]. apply Hb. now left.
+      * apply Hb. now right.
+Qed.
+Lemma isMax_unique m1 m2 l1 l2 : Forall2 Qeq l1 l2 -> isMax m1 l1 -> isMax m2 l2 -> m1 == m2.
+Proof.
+  intros H [(x1 & I1 & E1) B1] [(x2 & I2 & E2) B2].
+  assert (T1 : forall x, In x l1 -> exists y, In y l2 /\ x == y).
+  { clear -H. induction H; intros z []; subst; [eexists; split; [left; reflexivity|auto]|].
+    destruct (IHForall2 z H1) as (w & ? & ?). exists w. split; auto. now right. }
+  assert (T2 : forall y, In y l2 -> exists x, In x l1 /\ x == y).
+  { clear -H. induction H; intros z []; subst; [eexists; split; [left; reflexivity|auto]|].
+    destruct (IHForall2 z H1) as (w & ? & ?). exists w. split; auto. now right. }
+  apply Qle_antisym.
+  - destruct (T1 x1 I1) as (y & Iy & Ey). rewrite <- E1, Ey. now apply B2.
+  - destruct (T2 x2 I2) as (x & Ix & Ex). rewrite <- E2, <- Ex. now apply B1.
+Qed.
+Lemma isMin_unique m1 m2 l1 l2 : Forall2 Qeq l1 l2 -> isMin m1 l1 -> isMin m2 l2 -> m1 == m2.
+Proof.
+  intros H [(x1 & I1 & E1) B1] [(x2 & I2 & E2) B2].
+  assert (T1 : forall x, In x l1 -> exists y, In y l2 /\ x == y).
+  { clear -H. induction H; intros z []; subst; [eexists; split; [left; reflexivity|auto]|].
+    destruct (IHForall2 z H1) as (w & ? & ?). exists w. split; auto. now right. }
+  assert (T2 : forall y, In y l2 -> exists x, In x l1 /\ x == y).
+  { clear -H. induction H; intros z []; subst; [eexists; split; [left; reflexivity|auto]|].
+    destruct (IHForall2 z H1) as (w & ? & ?). exists w. split; auto. now right. }
+  apply Qle_antisym.
+  - destruct (T2 x2 I2) as (x & Ix & Ex). rewrite <- E2, <- Ex. now apply B1.
+  - destruct (T1 x1 I1) as (y & Iy & Ey). rewrite <- E1, Ey. now apply B2.
+Qed.
+Lemma in_stored q c : In q (stored c) <-> In (Some q) c.
+Proof.
+  unfold stored. rewrite in_flat_map. split.
+  - intros ([w|] & Hc & Hq); cbn in Hq; [destruct Hq as [<-|[]]; exact Hc|contradiction].
+  - intros H. exists (Some q). split; auto. now left.
+Qed.
+Lemma in_dense q c : In q (dense c) <-> exists x, In x c /\ dcell x = q.
+Proof. unfold dense. rewrite in_map_iff. split; intros (x & A & B); exists x; auto. Qed.
+Lemma has_none c : Nat.ltb (nkeys c) (length c) = true -> In None c.
+Proof.
+  intros H. apply Nat.ltb_lt in H. induction c as [|x c IH]; [cbn in H; lia|].
+  rewrite nkeys_cons in H. cbn [length] in H. destruct x as [v|]; [right; apply IH; cbn in H; lia|now left].
+Qed.
+Lemma no_none c : Nat.ltb (nkeys c) (length c) = false -> ~ In None c.
+Proof.
+  intros H K. apply Nat.ltb_ge in H. pose proof (nkeys_le c).
+  assert (F : Forall (fun x => present x = true) c) by (apply nkeys_full, Nat.eqb_eq; lia).
+  eapply Forall_forall in F; eauto. discriminate.
+Qed.
+Lemma stored_nil c : stored c = [] -> Forall (fun x => x = None) c.
+Proof.
+  intros H. apply Forall_forall. intros [q|] Hx; auto. apply in_stored in Hx. rewrite H in Hx. contradiction.
+Qed.
+Theorem max_refines c v : Rv c v -> c <> [] -> exists m m', sv_max c = Ok m /\ np_max v = Ok m' /\ m == m'.
+Proof.
+  intros H Hne. unfold np_max. destruct H as [|x0 x0' c0 v0 Hx0 H0]; [congruence|].
+  set (c := x0 :: c0) in *. set (v := x0' :: v0).
+  assert (Hv : isMax (qmaxl x0' v0) v) by apply qmaxl_spec.
+  assert (HR : Rv c v) by (constructor; auto).
+  assert (G : forall m, isMax m (dense c) -> sv_max c = Ok m ->
+               exists m0 m', sv_max c = Ok m0 /\ Ok (qmaxl x0' v0) = Ok m' /\ m0 == m').
+  { intros m Hm E. exists m, (qmaxl x0' v0). repeat split; auto. eapply isMax_unique; [apply (Rv_Qeq _ _ HR)|exact Hm|exact Hv]. }
+  destruct (stored c) as [|s t] eqn:S.
+  - assert (L : len0 c = false) by reflexivity. apply (G 0); [|unfold sv_max; now rewrite S, L].
+    apply stored_nil in S. split.
+    + exists 0. split; [|reflexivity]. apply in_dense. exists None. split; auto. inversion S; subst. now left.
+    + intros y Hy. apply in_dense in Hy as (x & Hx & <-). eapply Forall_forall in S; eauto. subst. apply Qle_refl.
+  - pose proof (qmaxl_spec t s) as [(z & Hz & Ez) Hb]. rewrite <- S in Hz, Hb.
+    destruct (qltb (qmaxl s t) 0 && Nat.ltb (nkeys c) (length c)) eqn:C.
+    + pose proof C as C0. apply andb_true_iff in C as [C1 C2]. apply qltb_iff in C1. apply has_none in C2.
+      apply (G 0); [|unfold sv_max; now rewrite S, C0].
+      split.
+      * exists 0. split; [|reflexivity]. apply in_dense. exists None. auto.
+      * intros y Hy. apply in_dense in Hy as ([w|] & Hx & <-); cbn; [|apply Qle_refl].
+        apply in_stored in Hx. specialize (Hb w Hx). lra.
+    + apply (G (qmaxl s t)); [|unfold sv_max; now rewrite S, C]. split.
+      * exists z. split; auto. apply in_dense. exists (Some z). split; auto. now apply in_stored.
+      * intros y Hy. apply in_dense in Hy as ([w|] & Hx & <-); cbn; [apply Hb; now apply in_stored|].
+        apply andb_false_iff in C as [C|C]; [now apply qltb_niff in C|]. exfalso. eapply no_none; eauto.
+Qed.
+Theorem min_refines c v : Rv c v -> c <> [] -> exists m m', sv_min c = Ok m /\ np_min v = Ok m' /\ m == m'.
+Proof.
+  intros H Hne. unfold np_min. destruct H as [|x0 x0' c0 v0 Hx0 H0]; [congruence|].
+  set (c := x0 :: c0) in *. set (v := x0' :: v0).
+  assert (Hv : isMin (qminl x0' v0) v) by apply qminl_spec.
+  assert (HR : Rv c v) by (constructor; auto).
+  assert (G : forall m, isMin m (dense c) -> sv_min c = Ok m ->
+               exists m0 m', sv_min c = Ok m0 /\ Ok (qminl x0' v0) = Ok m' /\ m0 == m').
+  { intros m Hm E. exists m, (qminl x0' v0). repeat split; auto. eapply isMin_unique; [apply (Rv_Qeq _ _ HR)|exact Hm|exact Hv]. }
+  destruct (stored c) as [|s t] eqn:S.
+  - assert (L : len0 c = false) by reflexivity. apply (G 0); [|unfold sv_min; now rewrite S, L].
+    apply stored_nil in S. split.
+    + exists 0. split; [|reflexivity]. apply in_dense. exists None. split; auto. inversion S; subst. now left.
+    + intros y Hy. apply in_dense in Hy as (x & Hx & <-). eapply Forall_forall in S; eauto. subst. apply Qle_refl.
+  - pose proof (qminl_spec t s) as [(z & Hz & Ez) Hb]. rewrite <- S in Hz, Hb.
+    destruct (qltb 0 (qminl s t) && Nat.ltb (nkeys c) (length c)) eqn:C.
+    + pose proof C as C0. apply andb_true_iff in C as [C1 C2]. apply qltb_iff in C1. apply has_none in C2.
+      apply (G 0); [|unfold sv_min; now rewrite S, C0].
+      split.
+      * exists 0. split; [|reflexivity]. apply in_dense. exists None. auto.
+      * intros y Hy. apply in_dense in Hy as ([w|] & Hx & <-); cbn; [|apply Qle_refl].
+        apply in_stored in Hx. specialize (Hb w Hx). lra.
+    + apply (G (qminl s t)); [|unfold sv_min; now rewrite S, C]. split.
+      * exists z. split; auto. apply in_dense. exists (Some z). split; auto. now apply in_stored.
+      * intros y Hy. apply in_dense in Hy as ([w|] & Hx & <-); cbn; [apply Hb; now apply in_stored|].
+        apply andb_false_iff in C as [C|C]; [now apply qltb_niff in C|]. exfalso. eapply no_none; eauto.
+Qed.
+(* keepdims: the length-1 result vector *)
+Lemma keep1_refines q q' : q == q' -> Rv (keep1 q) [q'].
+Proof. intros H. constructor; [now apply Rc_nz|constructor]. Qed.
+
+
+(* ================================================================== Part 11: logical vectors and the row-wise array lifts *)
+Lemma trues_map (b : bits) : trues (length b) = map (fun _ => true) b.
+Proof. unfold trues. induction b; cbn; congruence. Qed.
+Lemma falses_map (b : bits) : falses (length b) = map (fun _ => false) b.
+Proof. unfold falses. induction b; cbn; congruence. Qed.
+Lemma lop_b_pure o x y : o <> LDiv -> lop_b o x y = Ok (match o with LAdd | LOr => x || y | LMul | LAnd => x && y | _ => xorb x y end).
+Proof. destruct o; cbn; congruence. Qed.
+Definition lopf (o : lop) (x y : bool) : bool := match o with LAdd | LOr => x || y | LMul | LAnd => x && y | _ => xorb x y end.
+(* the logical kernels ARE NumPy's logical operators on the membership bits (division excepted: False/False) *)
+Theorem logic_refines o a b : o <> LDiv -> (length a = 1%nat -> b <> []) -> lv_isparse o a b = np_logic o a b.
+Proof.
+  intros Ho Hne. unfold np_logic, np_bcast.
+  rewrite (map2M_ext _ (fun x y => Ok (lopf o x y))) by (intros; now apply lop_b_pure).
+  rewrite (mapM_ext (lop_b o (hd false a)) (fun y => Ok (lopf o (hd false a) y))) by (intros; now apply lop_b_pure).
+  rewrite (mapM_ext (fun x => lop_b o x (hd false b)) (fun x => Ok (lopf o x (hd false b)))) by (intros; now apply lop_b_pure).
+  rewrite map2M_pure, !mapM_pure. unfold lv_isparse, hdb.
+  destruct (Nat.eqb (length a) (length b)) eqn:E.
+  - destruct o; try congruence; reflexivity.
+  - destruct (Nat.eqb (length a) 1) eqn:E1.
+    + assert (L0 : Nat.eqb (length b) 0 = false).
+      { apply Nat.eqb_eq in E1. specialize (Hne E1). destruct b; [congruence|reflexivity]. }
+      rewrite L0. cbn [andb negb]. rewrite trues_map, falses_map.
+      destruct o; try congruence; destruct (hd false a); cbn [lopf]; f_equal;
+        try reflexivity; try (symmetry; apply map_id); try (apply map_ext; intros []; reflexivity);
+        try (rewrite <- (map_id b) at 1; apply map_ext; intros []; reflexivity).
+    + cbn [andb]. destruct (Nat.eqb (length b) 1) eqn:E2; [|reflexivity].
+      rewrite trues_map, falses_map.
+      destruct o; try congruence; destruct (hd false b); cbn [lopf]; f_equal;
+        try (apply map_ext; intros []; reflexivity);
+        try (rewrite <- (map_id a) at 1; apply map_ext; intros []; reflexivity).
+Qed.
+Lemma np_ilogic_binary o a b : length a = length b \/ length b = 1%nat -> np_ilogic o a b = np_logic o a b.
+Proof.
+  intros H. unfold np_ilogic, np_ibcast, np_logic, np_bcast.
+  destruct (Nat.eqb (length a) (length b)) eqn:E; auto.
+  destruct H as [H|H]; [apply Nat.eqb_neq in E; congruence|].
+  rewrite H. cbn. destruct (Nat.eqb (length a) 1) eqn:E1; auto.
+  apply Nat.eqb_eq in E1. apply Nat.eqb_neq in E. congruence.
+Qed.
+
+(* rows of a SparseArray against one operand: the same kernel on every row *)
+Lemma mapM_map {A B C} (f : B -> res C) (g : A -> B) l : mapM f (map g l) = mapM (fun x => f (g x)) l.
+Proof. induction l as [|x l IH]; cbn; auto. now rewrite IH. Qed.
+Lemma mapM_okF {A} (k : A -> res cells) rows : mapM (fun c => okF (k c)) rows = (do l <- mapM k rows; Ok (map VF l)).
+Proof.
+  induction rows as [|c rows IH]; cbn; auto. destruct (k c); cbn; auto. rewrite IH. destruct (mapM k rows); reflexivity.
+Qed.
+Lemma all_F_VF l : all_F (map VF l) = Some l.
+Proof. induction l; cbn; auto. now rewrite IHl. Qed.
+Lemma obj_of_rows_VF l : obj_of_rows (map VF l) = Ok (OA l false).
+Proof. unfold obj_of_rows. now rewrite all_F_VF. Qed.
+(* the operand kinds of the lift: sparse vector, scalar, list *)
+Definition rowk (a : aop) (p : operand) (c : cells) : res cells := vcells (vec_bin false (BA a) (VF c) p).
+Lemma vec_bin_rowk a c p : match p with PV _ | PS _ _ | PArr _ _ => True | _ => False end ->
+  vec_bin false (BA a) (VF c) p = okF (rowk a p c).
+Proof. intros H. unfold rowk. destruct p; try contradiction; cbn; now rewrite vcells_okF. Qed.
+Theorem array_bin_rows a rows p : match p with PV _ | PS _ _ | PArr _ _ => True | _ => False end ->
+  array_bin false (BA a) (map VF rows) p = (do l <- mapM (rowk a p) rows; Ok (OA l false)).
+Proof.
+  intros H. unfold array_bin.
+  assert (G : mapM (fun r => vec_bin false (BA a) r p) (map VF rows) = (do l <- mapM (rowk a p) rows; Ok (map VF l))).
+  { rewrite mapM_map. rewrite <- mapM_okF. apply mapM_ext. intros c. now apply vec_bin_rowk. }
+  destruct p; try contradiction; rewrite G; destruct (mapM _ rows); cbn; auto using obj_of_rows_VF.
+Qed.
+Theorem array_ibin_rows a rows p : a <> Div -> match p with PV _ | PS _ _ | PArr _ _ => True | _ => False end ->
+  array_ibin false (BA a) false (map VF rows) p = (do l <- mapM (rowk a p) rows; Ok (map VF l)).
+Proof.
+  intros Ha H. unfold array_ibin.
+  assert (G : mapM (fun row => vec_ibin false (BA a) false row p) (map VF rows) = (do l <- mapM (rowk a p) rows; Ok (map VF l))).
+  { rewrite mapM_map. rewrite <- mapM_okF. apply mapM_ext. intros c. rewrite <- vec_bin_rowk by auto.
+    destruct p; try contradiction; cbn [vec_ibin vec_bin]; try reflexivity. now rewrite inplace_eq_binary. }
+  destruct p; try contradiction; try exact G.
+  assert (F : is_float_rows (map VF rows) = true) by (destruct rows; reflexivity). rewrite F. exact G.
+Qed.
+(* row-wise refinement: every row refines NumPy's row *)
+Theorem rows_refine (k : cells -> res cells) (g : list Q -> res (list Q)) rows rows' :
+  (forall c c', Rv c c' -> refines (k c) (g c')) -> Forall2 Rv rows rows' ->
+  rrel (Forall2 Rv) (mapM k rows) (mapM g rows').
+Proof. intros H Hr. apply (mapM_rrel Rv); auto. Qed.
+
+(* ================================================================== Part 12: histories refine NumPy histories (vectors, logical vectors, row-wise arrays) *)
 Inductive fop (s : store) : xop -> Prop :=
 | F_bin a i x c ro : a <> Div -> nth_error s i = Some (OV c ro) -> okarg s c x -> fop s (XOp (OBin (BA a) i x))
 | F_ibin a i x c ro : a <> Div -> nth_error s i = Some (OV c ro) -> okarg s c x ->
@@ -1342,6 +2125,17 @@ Inductive fop (s : store) : xop -> Prop :=
     (forall p, resolve s x = Ok p ->
        match p with PV e => length e = length c \/ length e = 1%nat | PArr l _ => length l = length c | _ => True end) ->
     fop s (XOp (OIBin (BA a) i x))
+| F_abin a i x rows ro : a <> Div -> nth_error s i = Some (OA rows ro) -> rows <> [] ->
+    Forall (fun c => okarg s c x) rows -> fop s (XOp (OBin (BA a) i x))
+| F_aibin a i x rows : a <> Div -> nth_error s i = Some (OA rows false) -> rows <> [] ->
+    Forall (fun c => okarg s c x) rows ->
+    (forall p, resolve s x = Ok p ->
+       Forall (fun c => match p with PV e => length e = length c \/ length e = 1%nat | PArr l _ => length l = length c | _ => True end) rows) ->
+    fop s (XOp (OIBin (BA a) i x))
+| F_lbin bo lo i j b b2 : lop_of_bop bo = Some lo -> lo <> LDiv -> nth_error s i = Some (OL b) -> nth_error s j = Some (OL b2) ->
+    (length b = 1%nat -> b2 <> []) -> fop s (XOp (OBin bo i (AObj j)))
+| F_libin bo lo i j b b2 : lop_of_bop bo = Some lo -> lo <> LDiv -> nth_error s i = Some (OL b) -> nth_error s j = Some (OL b2) ->
+    (length b2 = length b \/ length b2 = 1%nat) -> fop s (XOp (OIBin bo i (AObj j)))
 | F_neg i c ro : nth_error s i = Some (OV c ro) -> fop s (XOp (ONeg i))
 | F_abs i c ro : nth_error s i = Some (OV c ro) -> fop s (XOp (OAbs i))
 | F_copy i c ro : nth_error s i = Some (OV c ro) -> fop s (XOp (OCopy i))
@@ -1360,11 +2154,178 @@ Proof.
   destruct (Nat.eqb (length w) 1); [discriminate|]. congruence.
 Qed.
 
+
+(* ---- the array and logical cases of the simulation step ---- *)
+Definition pkind (p : operand) : Prop := match p with PV _ | PS _ _ | PArr _ _ => True | _ => False end.
+Lemma resolve_frag s c x p : okarg s c x -> resolve s x = Ok p -> pkind p.
+Proof.
+  intros Hx R. destruct x as [j| | |l| | |]; cbn in Hx, R; try contradiction; try (inversion R; exact I).
+  - unfold getobj in R. destruct Hx as (e & ro2 & Ej & _). rewrite Ej in R. inversion R; exact I.
+  - inversion R. unfold reduce1. destruct l as [|? [|? ?]]; exact I.
+Qed.
+Lemma Forall2_conj {A B} (R : A -> B -> Prop) (P : A -> Prop) l l' :
+  Forall2 R l l' -> Forall P l -> Forall2 (fun x y => R x y /\ P x) l l'.
+Proof. intros H. induction H; intros HP; inversion HP; subst; constructor; auto. Qed.
+Lemma mapM_err_in {A B} (g : A -> res B) l e : mapM g l = Err e -> exists x, In x l /\ g x = Err e.
+Proof.
+  induction l as [|x l IH]; cbn; [discriminate|]. destruct (g x) eqn:G.
+  - destruct (mapM g l); [discriminate|]. intros H. inversion H; subst. destruct (IH eq_refl) as (y & ? & ?). exists y. split; auto.
+  - intros H. inversion H; subst. exists x. split; auto.
+Qed.
+Definition good (s : store) (d : dstore) (o : xop) : Prop :=
+  sim (fst (xstep false s o)) (fst (np_step d o)) /\ crashed (snd (xstep false s o)) = false.
+
+Lemma rows_arg_refines s d a x rows m : sim s d -> a <> Div -> rows <> [] -> Forall2 Rv rows m ->
+  Forall (fun c => okarg s c x) rows ->
+  exists p w, resolve s x = Ok p /\ darg d x = Some w /\ pkind p /\
+    Forall2 (fun c c' => Rv c c' /\ refines (rowk a p c) (np_arith a c' w) /\
+                         match p with PV e => length e = length w | PS _ _ => length w = 1%nat | PArr l _ => length l = length w | _ => False end) rows m.
+Proof.
+  intros Hs Ha Hne Hr Hok. destruct Hr as [|c0 m0 rows0 ms Hc0 Hr0]; [congruence|].
+  inversion Hok as [|? ? Hx0 Hok0]; subst.
+  destruct (arg_refines s d a c0 m0 x Hs Ha Hc0 Hx0) as (p & w & R & D & Href & _ & Hlen).
+  exists p, w. repeat split; auto; [eapply resolve_frag; eauto|].
+  assert (G : forall c c', Rv c c' -> okarg s c x ->
+                 Rv c c' /\ refines (rowk a p c) (np_arith a c' w) /\
+                 match p with PV e => length e = length w | PS _ _ => length w = 1%nat | PArr l _ => length l = length w | _ => False end).
+  { intros c c' Hc Hx. destruct (arg_refines s d a c c' x Hs Ha Hc Hx) as (p' & w' & R' & D' & Href' & _ & Hlen').
+    rewrite R in R'. inversion R'; subst p'. rewrite D in D'. inversion D'; subst w'. repeat split; auto. }
+  constructor; [apply G; auto|].
+  clear -G Hr0 Hok0. induction Hr0; inversion Hok0; subst; constructor; auto.
+Qed.
+Lemma np_arith2_err a m w e : a <> Div -> np_arith2 a m w = Err e -> e = EValue.
+Proof. intros Ha H. apply mapM_err_in in H as (r & _ & Hr). eapply np_arith_err; eauto. Qed.
+
+Lemma step_sim_abin s d a i x rows ro : sim s d -> a <> Div -> nth_error s i = Some (OA rows ro) -> rows <> [] ->
+  Forall (fun c => okarg s c x) rows -> good s d (XOp (OBin (BA a) i x)).
+Proof.
+  intros Hs Ha Ei Hne Hok. destruct (sim_nth _ _ _ _ Hs Ei) as (o' & Ei' & Hoo).
+  destruct o' as [| |m ro'|]; cbn in Hoo; try contradiction. destruct Hoo as [Hrm <-].
+  destruct (rows_arg_refines s d a x rows m Hs Ha Hne Hrm Hok) as (p & w & R & D & P & F).
+  unfold good, xstep. cbn [xstep_res step_res np_step]. unfold getobj. rewrite Ei, Ei', R, D. cbn [bind vec_of_obj rows_of].
+  rewrite array_bin_rows by exact P.
+  assert (RR : rrel (Forall2 Rv) (mapM (rowk a p) rows) (np_arith2 a m w)).
+  { unfold np_arith2. eapply mapM_rrel; [|exact F]. cbn. intros c c' (_ & H & _). exact H. }
+  destruct (mapM (rowk a p) rows) as [l|e] eqn:M; destruct (np_arith2 a m w) as [r'|e'] eqn:N; cbn in RR; try contradiction; cbn.
+  - split; auto. apply sim_app; auto. cbn. auto.
+  - split; auto. subst. now rewrite (np_arith2_err _ _ _ _ Ha N).
+Qed.
+Lemma with_rows_VF rows ro l : with_rows (OA rows ro) (map VF l) = Ok (OA l ro).
+Proof. cbn. now rewrite all_F_VF. Qed.
+Lemma step_sim_aibin s d a i x rows : sim s d -> a <> Div -> nth_error s i = Some (OA rows false) -> rows <> [] ->
+  Forall (fun c => okarg s c x) rows ->
+  (forall p, resolve s x = Ok p ->
+     Forall (fun c => match p with PV e => length e = length c \/ length e = 1%nat | PArr l _ => length l = length c | _ => True end) rows) ->
+  good s d (XOp (OIBin (BA a) i x)).
+Proof.
+  intros Hs Ha Ei Hne Hok Hsh. destruct (sim_nth _ _ _ _ Hs Ei) as (o' & Ei' & Hoo).
+  destruct o' as [| |m ro'|]; cbn in Hoo; try contradiction. destruct Hoo as [Hrm <-].
+  destruct (rows_arg_refines s d a x rows m Hs Ha Hne Hrm Hok) as (p & w & R & D & P & F).
+  specialize (Hsh p R).
+  assert (Al : alias_of x i = false).
+  { destruct x as [j| | | | | |]; cbn; auto. apply Nat.eqb_neq. intros ->.
+    destruct rows as [|c0 rows0]; [congruence|]. inversion Hok; subst. cbn in H1. destruct H1 as (e & r2 & Ej & _). congruence. }
+  unfold good, xstep. cbn [xstep_res step_res np_step]. unfold getobj. rewrite Ei, Ei', R, D. cbn [bind vec_of_obj rows_of]. rewrite Al.
+  rewrite array_ibin_rows by auto.
+  assert (RR : rrel (Forall2 Rv) (mapM (rowk a p) rows) (np_iarith2 a m w)).
+  { unfold np_iarith2. eapply mapM_rrel; [|exact (Forall2_conj _ _ _ _ F Hsh)]. cbn. intros c c' ((Hc & H & Hl) & Hs').
+    rewrite np_iarith_binary; auto. rewrite <- (Rv_length _ _ Hc). destruct p; try contradiction.
+    - rewrite <- Hl. destruct Hs'; auto.
+    - now right.
+    - left. now rewrite <- Hl. }
+  assert (E2 : forall e, np_iarith2 a m w = Err e -> e = EValue).
+  { intros e H. apply mapM_err_in in H as (r & _ & Hr). unfold np_iarith, np_ibcast in Hr.
+    rewrite (map2M_ext _ (fun x y => Ok (qop a x y))) in Hr by (intros; now apply aop_q_pure).
+    rewrite (mapM_ext (fun x => aop_q a x (hd 0 w)) (fun x => Ok (qop a x (hd 0 w)))) in Hr by (intros; now apply aop_q_pure).
+    rewrite map2M_pure, mapM_pure in Hr. destruct (Nat.eqb (length r) (length w)); [discriminate|].
+    destruct (Nat.eqb (length w) 1); [discriminate|]. congruence. }
+  destruct (mapM (rowk a p) rows) as [l|e] eqn:M; destruct (np_iarith2 a m w) as [r'|e'] eqn:N; cbn in RR; try contradiction; cbn [bind].
+  - rewrite with_rows_VF. cbn. split; auto. apply sim_upd; auto. cbn. auto.
+  - cbn. split; auto. subst. now rewrite (E2 _ eq_refl).
+Qed.
+
+Lemma vb_logic bo lo b d : lop_of_bop bo = Some lo -> vec_bin false bo (VB b) (PL d) = okB (lv_isparse lo b d).
+Proof. destruct bo as [[]| |o]; cbn; intros H; inversion H; subst; reflexivity. Qed.
+Lemma vb_ilogic bo lo al b d : lop_of_bop bo = Some lo -> vec_ibin false bo al (VB b) (PL d) = okB (lv_isparse lo b d).
+Proof. destruct bo as [[]| |o]; cbn; intros H; inversion H; subst; reflexivity. Qed.
+Lemma np_logic_err lo a b e : lo <> LDiv -> np_logic lo a b = Err e -> e = EValue.
+Proof.
+  intros Ho. unfold np_logic, np_bcast.
+  rewrite (map2M_ext _ (fun x y => Ok (lopf lo x y))) by (intros; now apply lop_b_pure).
+  rewrite (mapM_ext (lop_b lo (hd false a)) (fun y => Ok (lopf lo (hd false a) y))) by (intros; now apply lop_b_pure).
+  rewrite (mapM_ext (fun x => lop_b lo x (hd false b)) (fun x => Ok (lopf lo x (hd false b)))) by (intros; now apply lop_b_pure).
+  rewrite map2M_pure, !mapM_pure.
+  destruct (Nat.eqb (length a) (length b)); [discriminate|].
+  destruct (Nat.eqb (length a) 1); [discriminate|].
+  destruct (Nat.eqb (length b) 1); [discriminate|]. congruence.
+Qed.
+Lemma step_sim_lbin s d bo lo i j b b2 : sim s d -> lop_of_bop bo = Some lo -> lo <> LDiv ->
+  nth_error s i = Some (OL b) -> nth_error s j = Some (OL b2) -> (length b = 1%nat -> b2 <> []) ->
+  good s d (XOp (OBin bo i (AObj j))).
+Proof.
+  intros Hs Hl Hn Ei Ej Hne.
+  destruct (sim_nth _ _ _ _ Hs Ei) as (o' & Ei' & Hoo). destruct o' as [|b'| |]; cbn in Hoo; try contradiction. subst b'.
+  destruct (sim_nth _ _ _ _ Hs Ej) as (o2 & Ej' & Hoo2). destruct o2 as [|b2'| |]; cbn in Hoo2; try contradiction. subst b2'.
+  assert (NS : match bo with BA Sub => False | _ => True end) by (destruct bo as [[]| |]; cbn in Hl; try discriminate; exact I).
+  unfold good, xstep. cbn [xstep_res step_res]. unfold getobj, resolve, getobj. rewrite Ei, Ej. cbn [bind vec_of_obj].
+  unfold vector_bin.
+  assert (S' : match VB b, bo with VB b0, BA Sub => VF (cells_of_bits b0) | _, _ => VB b end = VB b)
+    by (destruct bo as [[]| |]; try contradiction; reflexivity).
+  rewrite S'. rewrite (vb_logic _ _ _ _ Hl), (logic_refines lo b b2 Hn Hne).
+  assert (NP : np_step d (XOp (OBin bo i (AObj j))) =
+               match np_logic lo b b2 with Ok r => (d ++ [DL r], DNew (DL r)) | Err e => (d, DErr e) end).
+  { destruct bo as [a| |o]; cbn in Hl; try discriminate; [destruct a; cbn in Hl; try discriminate|];
+      inversion Hl; subst; cbn [np_step]; rewrite Ei'; cbn [dargb lop_of_bop]; rewrite ?Ej'; try reflexivity;
+      destruct (darg d (AObj j)); reflexivity. }
+  rewrite NP. destruct (np_logic lo b b2) as [r|e] eqn:N; cbn.
+  - split; auto. apply sim_app; auto. cbn. auto.
+  - split; auto. now rewrite (np_logic_err _ _ _ _ Hn N).
+Qed.
+Lemma step_sim_libin s d bo lo i j b b2 : sim s d -> lop_of_bop bo = Some lo -> lo <> LDiv ->
+  nth_error s i = Some (OL b) -> nth_error s j = Some (OL b2) -> (length b2 = length b \/ length b2 = 1%nat) ->
+  good s d (XOp (OIBin bo i (AObj j))).
+Proof.
+  intros Hs Hl Hn Ei Ej Hsh.
+  destruct (sim_nth _ _ _ _ Hs Ei) as (o' & Ei' & Hoo). destruct o' as [|b'| |]; cbn in Hoo; try contradiction. subst b'.
+  destruct (sim_nth _ _ _ _ Hs Ej) as (o2 & Ej' & Hoo2). destruct o2 as [|b2'| |]; cbn in Hoo2; try contradiction. subst b2'.
+  assert (Hne : length b = 1%nat -> b2 <> []) by (intros L ->; cbn in Hsh; destruct Hsh; congruence).
+  unfold good, xstep. cbn [xstep_res step_res]. unfold getobj, resolve, getobj. rewrite Ei, Ej. cbn [bind vec_of_obj is_ro].
+  assert (XS : (match VB b, bo with
+                | VB _, BA Sub => Err EType
+                | _, _ => match PL b2 with
+                          | PA [r] => do v' <- vec_ibin false bo false (VB b) (PV r); do x' <- with_vec (OL b) v'; Ok (set_obj s i x', RUnit)
+                          | PB [r] => do v' <- vec_ibin false bo false (VB b) (PL r); do x' <- with_vec (OL b) v'; Ok (set_obj s i x', RUnit)
+                          | PA _ | PB _ => Err EValue
+                          | PArr2 _ _ => unsupported
+                          | _ => do v' <- vec_ibin false bo (alias_of (AObj j) i) (VB b) (PL b2); do x' <- with_vec (OL b) v'; Ok (set_obj s i x', RUnit)
+                          end
+                end) = (do r <- np_logic lo b b2; Ok (set_obj s i (OL r), RUnit))).
+  { destruct bo as [[]| |o]; cbn in Hl; try discriminate; cbn [vec_ibin]; inversion Hl; subst;
+      cbn [lop_of]; rewrite (logic_refines _ b b2 Hn Hne); destruct (np_logic _ b b2); reflexivity. }
+  rewrite XS.
+  assert (NP : np_step d (XOp (OIBin bo i (AObj j))) =
+               match np_ilogic lo b b2 with Ok r => (upd d i (DL r), DUpd (DL r)) | Err e => (d, DErr e) end).
+  { destruct bo as [a| |o]; cbn in Hl; try discriminate; [destruct a; cbn in Hl; try discriminate|];
+      inversion Hl; subst; cbn [np_step]; rewrite Ei'; cbn [dargb lop_of_bop]; rewrite ?Ej'; try reflexivity;
+      destruct (darg d (AObj j)); reflexivity. }
+  rewrite NP, np_ilogic_binary by (destruct Hsh; [left|right]; congruence).
+  destruct (np_logic lo b b2) as [r|e] eqn:N; cbn.
+  - split; auto. apply sim_upd; auto. cbn. auto.
+  - split; auto. now rewrite (np_logic_err _ _ _ _ Hn N).
+Qed.
+
 Lemma step_sim s d o : sim s d -> fop s o ->
   sim (fst (xstep false s o)) (fst (np_step d o)) /\ crashed (snd (xstep false s o)) = false.
 Proof.
-  intros Hs Ho. destruct Ho as [a i x c ro Ha Ei Hx | a i x c ro Ha Ei Hx Hsh | i c ro Ei | i c ro Ei | i c ro Ei | i c ro Ei | i c ro Ei];
-    destruct (sim_nth _ _ _ _ Hs Ei) as (o' & Ei' & Hoo); destruct o' as [v ro'| | |]; cbn in Hoo; try contradiction;
+  intros Hs Ho. destruct Ho as [a i x c ro Ha Ei Hx | a i x c ro Ha Ei Hx Hsh
+                              | a i x rows ro Ha Ei Hne Hok | a i x rows Ha Ei Hne Hok Hsh
+                              | bo lo i j b b2 Hl Hn Ei Ej Hne | bo lo i j b b2 Hl Hn Ei Ej Hsh
+                              | i c ro Ei | i c ro Ei | i c ro Ei | i c ro Ei | i c ro Ei].
+  3: { eapply step_sim_abin; eauto. }
+  3: { eapply step_sim_aibin; eauto. }
+  3: { eapply step_sim_lbin; eauto. }
+  3: { eapply step_sim_libin; eauto. }
+  all: destruct (sim_nth _ _ _ _ Hs Ei) as (o' & Ei' & Hoo); destruct o' as [v ro'| | |]; cbn in Hoo; try contradiction;
     destruct Hoo as [Hcv <-].
   - destruct (arg_refines s d a c v x Hs Ha Hcv Hx) as (p & w & R & D & Href & _ & _).
     unfold xstep. cbn [xstep_res step_res np_step]. unfold getobj. rewrite Ei, Ei', R, D. cbn [bind vec_of_obj].
@@ -1442,55 +2403,25 @@ Proof.
   - now apply abs_cells_wf.
 Qed.
 
-(* ================================================================== Part 6: comparisons refine NumPy's *)
-Lemma bool_ext (b1 b2 : bool) : (b1 = true <-> b2 = true) -> b1 = b2.
-Proof. destruct b1, b2; intros [H1 H2]; auto; try (symmetry; now apply H1); try (now apply H2). Qed.
-Lemma qcmp_compat c x x' y y' : x == x' -> y == y' -> qcmp c x y = qcmp c x' y'.
+
+(* ================================================================== Part 13: read-only vectors, operator by operator *)
+Lemma resolve_total s a : (forall j, a = AObj j -> (j < length s)%nat) -> exists p, resolve s a = Ok p.
 Proof.
-  intros Hx Hy.
-  assert (E : Qeq_bool x y = Qeq_bool x' y').
-  { apply bool_ext. rewrite !Qeq_bool_iff. now rewrite Hx, Hy. }
-  assert (L1 : Qle_bool x y = Qle_bool x' y').
-  { apply bool_ext. rewrite !Qle_bool_iff. now rewrite Hx, Hy. }
-  assert (L2 : Qle_bool y x = Qle_bool y' x').
-  { apply bool_ext. rewrite !Qle_bool_iff. now rewrite Hx, Hy. }
-  destruct c; unfold qcmp, qeqb, qltb, qleb; congruence.
+  intros H. destruct a; cbn; eauto. unfold getobj. specialize (H i eq_refl).
+  destruct (nth_error s i) eqn:E; [cbn; eauto|]. apply nth_error_None in E. lia.
 Qed.
-Lemma qcmp_00 c : qcmp c 0 0 = match c with CEq | CGe | CLe => true | _ => false end.
-Proof. destruct c; reflexivity. Qed.
-Definition Rcq (c : cell) (q : Q) : Prop := dcell c == q.
-Lemma Rc_Rcq c q : Rc c q -> Rcq c q.
-Proof. intros [_ H]; exact H. Qed.
-Lemma qeqb_zero_present x : wfc x -> negb (present x) = qeqb (dcell x) 0.
+(* every in-place operator (the check precedes the operator dispatch), clear() and every form of item assignment,
+   for every operand kind: scalar, bool, list, ndarray 1-d / 2-d, sparse vector, logical vector, sparse array, itself *)
+Lemma readonly_vector_rejects_each lg s i c a :
+  nth_error s i = Some (OV c true) -> (forall j, a = AObj j -> (j < length s)%nat) ->
+  Forall (fun b => xstep lg s (XOp (OIBin b i a)) = (s, RErr EValue))
+         [BA Add; BA Sub; BA Mul; BA Div; BL LAnd; BL LXor; BL LOr] /\
+  xstep lg s (XOp (OClear i)) = (s, RErr EValue) /\
+  forall ix, xstep lg s (XOp (OSet i ix a)) = (s, RErr EValue).
 Proof.
-  destruct x as [v|]; cbn; intros H; auto. unfold qeqb. symmetry. apply not_true_is_false.
-  intros E. apply Qeq_bool_iff in E. contradiction.
-Qed.
-(* every branch of every comparison kernel computes dct.get(i, 0.) <op> other.get(i, 0.) *)
-Lemma cmp_cell_same c x y : wfc x -> wfc y ->
-  match c with CEq => eq_same_c x y | CNe => ne_same_c x y | _ => cmp_same_c c x y end = qcmp c (dcell x) (dcell y).
-Proof.
-  intros Hx Hy. destruct c; unfold eq_same_c, ne_same_c, cmp_same_c;
-    destruct x as [v|], y as [w|]; cbn in *; unfold qeqb, qltb, qleb in *; auto;
-    try (symmetry; apply not_true_is_false; intros E; apply Qeq_bool_iff in E; try (apply Hx; rewrite E; reflexivity); try (apply Hy; rewrite <- E; reflexivity); fail);
-    try (symmetry; apply negb_true_iff, not_true_is_false; intros E; apply Qeq_bool_iff in E; try (apply Hx; rewrite E; reflexivity); try (apply Hy; rewrite <- E; reflexivity); fail).
-Qed.
-Theorem cmp_sparse_same_refines c a a' b b' : Rv a a' -> Rv b b' -> length a = length b ->
-  rrel eq (cmp_sparse c a b) (np_cmp c a' b').
-Proof.
-  intros Ha Hb L. unfold np_cmp, np_bcast. rewrite <- (Rv_length _ _ Ha), <- (Rv_length _ _ Hb), L, Nat.eqb_refl.
-  rewrite map2M_pure.
-  assert (G : forall f, (forall x y, wfc x -> wfc y -> f x y = qcmp c (dcell x) (dcell y)) ->
-                        map2 f a b = map2 (qcmp c) a' b').
-  { intros f Hf. clear L. revert b b' Hb. induction Ha as [|x x' a a' [Hxw Hxd] Ha IH]; intros b b' Hb; cbn.
-    - destruct Hb; reflexivity.
-    - destruct Hb as [|y y' b b' [Hyw Hyd] Hb]; cbn; auto. rewrite Hf by auto. f_equal; auto. now apply qcmp_compat. }
-  unfold cmp_sparse, dispatch_sparse. rewrite L, Nat.eqb_refl.
-  destruct c; cbn; f_equal; apply G; intros x y Hx Hy.
-  - exact (cmp_cell_same CEq x y Hx Hy).
-  - exact (cmp_cell_same CNe x y Hx Hy).
-  - exact (cmp_cell_same CGt x y Hx Hy).
-  - exact (cmp_cell_same CLt x y Hx Hy).
-  - exact (cmp_cell_same CGe x y Hx Hy).
-  - exact (cmp_cell_same CLe x y Hx Hy).
+  intros Hi Ha. destruct (resolve_total s a Ha) as (p & R).
+  split; [|split].
+  - repeat constructor; eapply readonly_vector_rejects; eauto; left; eauto.
+  - eapply readonly_vector_rejects; eauto.
+  - intros ix. eapply readonly_vector_rejects; eauto. right; right. eauto.
 Qed.
